@@ -15,7 +15,7 @@
 (***************************************************************************)
 EXTENDS Optimizer, TLC, Json
 CONSTANTS NMd, Len0, Kind, EMIT
-VARIABLES recipe, noise
+VARIABLES recipe, noise, cache
 a345  == <<Q(3, 5), Q(4, 5)>>
 a435  == <<Q(4, 5), Q(3, 5)>>
 am345 == <<Q(-3, 5), Q(4, 5)>>
@@ -37,8 +37,7 @@ PermPool == [i \in 1 .. NMd - 1 |-> Op("BSgate", <<APi2, A0>>, <<i - 1, i>>)] \o
 Pool == IF Kind = "unitary" THEN PassivePool ELSE IF Kind = "perm" THEN PermPool ELSE ActivePool
 Init == /\ \E n \in 0 .. Len0 : \E f \in [1 .. n -> 1 .. Len(Pool)] : recipe = [i \in 1 .. n |-> Pool[f[i]]]
         /\ noise \in (IF Kind = "cov" THEN 0 .. 2 ELSE {0})
-Next == UNCHANGED <<recipe, noise>>
-Spec == Init /\ [][Next]_<<recipe, noise>>
+Next == UNCHANGED <<recipe, noise, cache>>
 
 \* exact product of the recipe: symplectic matrix over modes 0 .. NMd-1, and (passive) the complex unitary
 IdState   == [modes |-> ModesS, mu |-> ZeroV(2 * NMd), V |-> IdM(2 * NMd)]
@@ -50,7 +49,8 @@ LeftOnly(S, ms, G) ==
   IN  [i \in 1 .. n |-> IF loc[i] = 0 THEN S[i] ELSE [j \in 1 .. n |-> Dot(G[loc[i]], [b \in 1 .. t2 |-> S[idx[b]][j]])]]
 RECURSIVE ProdFrom(_, _)
 ProdFrom(S, i) == IF i > Len(recipe) THEN S ELSE ProdFrom(LeftOnly(S, recipe[i].modes, SympOf(recipe[i])), i + 1)
-SNet == ProdFrom(IdM(2 * NMd), 1)
+SNetRaw == ProdFrom(IdM(2 * NMd), 1)
+SNet == cache.S
 \* passive symplectic [[X, -Y], [Y, X]]  ->  U = X + iY
 UNet == [i \in 1 .. NMd |-> [j \in 1 .. NMd |-> <<SNet[i][j], SNet[NMd + i][j]>>]]
 NoiseId  == noise                                              \* 0: pure, 1: thermal on mode 0, 2: thermal on all modes
@@ -58,15 +58,20 @@ Noise    == [i \in 1 .. 2 * NMd |-> [j \in 1 .. 2 * NMd |->
                IF i # j THEN Zero
                ELSE IF NoiseId = 0 THEN One
                ELSE IF NoiseId = 1 THEN (IF i = 1 \/ i = NMd + 1 THEN Two ELSE One) ELSE Q(3, 2)]]
-VNet     == MatMul(MatMul(SNet, Noise), Transpose(SNet))
+VNetRaw  == MatMul(MatMul(SNetRaw, Noise), Transpose(SNetRaw))
+VNet     == cache.V
 RDisp    == [i \in 1 .. 2 * NMd |-> IF Len(recipe) % 2 = 0 THEN Zero ELSE Q((i % 3) - 1, 2)]
 SympOK   == IsSymplectic(SNet)
 UnitaryOK == Kind \in {"unitary", "perm"} => (SNet = FromUC(UNet))
-CovOK    == IsSymmetric(VNet) /\ RLe(One, Det(VNet))
+CovOK    == Kind = "cov" => (IsSymmetric(VNet) /\ RLe(One, Det(VNet)))
 ProbeSt  == ProbeState(NMd)
 Expected == CASE Kind \in {"unitary", "perm"} -> ApplySymp(ProbeSt, ModesS, SNet)
               [] Kind = "symplectic" -> ApplySymp(ProbeSt, ModesS, SNet)
               [] Kind = "cov"        -> [modes |-> ModesS, mu |-> RDisp, V |-> VNet]
-EmitInv == EMIT => PrintT(ToJson([kind |-> IF Kind = "perm" THEN "unitary" ELSE Kind, n |-> NMd, noise |-> noise, recipe |-> recipe, S |-> SNet, U |-> UNet, V |-> VNet, r |-> RDisp,
+VOut == IF Kind = "cov" THEN VNet ELSE IdM(2 * NMd)
+\* the products are computed once per recipe and carried in a variable
+Init0 == Init /\ cache = [S |-> SNetRaw, V |-> IF Kind = "cov" THEN VNetRaw ELSE << >>]
+EmitInv == EMIT => PrintT(ToJson([kind |-> IF Kind = "perm" THEN "unitary" ELSE Kind, n |-> NMd, noise |-> noise, recipe |-> recipe, S |-> SNet, U |-> UNet, V |-> VOut, r |-> RDisp,
                                    prefix |-> ProbeOps(NMd), st |-> Expected]))
+Spec == Init0 /\ [][Next]_<<recipe, noise, cache>>
 =============================================================================
